@@ -54,3 +54,45 @@ package query
 //@   modifies nothing
 //@   ensures[error-means-nothing] result2 != nil ==> result0 == nil && result1 == nil
 //@   ensures[root-of-the-leaf] result2 == nil ==> result0 != nil && result1 != nil && result0.Index == result1.L1InfoTreeIndex && result0.Hash == l1RootHashAt(result1.L1InfoTreeIndex)
+
+// ---- the bridge data querier (C03, C02): a thin pass-through to the L2 bridge syncer. Ghost view of the syncer's
+// current answers (they change with every processed block and every reorg, so nothing may be remembered across calls):
+//   exitRootAt[i]  exit-tree root recorded for deposit count i;   l2Synced  last processed block;
+//   bridgesOf / claimsOf (from, to)  the events of a block range, nBridgesOf / nClaimsOf their numbers
+//@ ghost var exitRootAt map[int]Hash
+//@ ghost var l2Synced int
+//@ spec fn bridgesOf(from int, to int) []bridgesync.Bridge
+//@ spec fn claimsOf(from int, to int) []bridgesync.Claim
+//@ spec fn nBridgesOf(from int, to int) int
+//@ spec fn nClaimsOf(from int, to int) int
+//@ interface github.com/agglayer/aggkit/aggsender/types.L2BridgeSyncer.GetExitRootByIndex (self, ctx, index)
+//@   modifies nothing
+//@   ensures result1 == nil ==> result0.Hash == exitRootAt[index]
+//@ interface github.com/agglayer/aggkit/aggsender/types.L2BridgeSyncer.GetLastProcessedBlock (self, ctx)
+//@   modifies nothing
+//@   ensures result1 == nil ==> result0 == l2Synced
+//@ interface github.com/agglayer/aggkit/aggsender/types.L2BridgeSyncer.GetBridges (self, ctx, fromBlock, toBlock)
+//@   modifies nothing
+//@   ensures result1 == nil ==> off(result0) == 0 && len(result0) == nBridgesOf(fromBlock, toBlock) && seq(result0) == bridgesOf(fromBlock, toBlock)
+//@ interface github.com/agglayer/aggkit/aggsender/types.L2BridgeSyncer.GetClaims (self, ctx, fromBlock, toBlock)
+//@   modifies nothing
+//@   ensures result1 == nil ==> off(result0) == 0 && len(result0) == nClaimsOf(fromBlock, toBlock) && seq(result0) == claimsOf(fromBlock, toBlock)
+
+//@ func (b *bridgeDataQuerier) GetExitRootByIndex
+//@   props C03
+//@   requires b != nil && b.bridgeSyncer != nil
+//@   modifies nothing
+//@   ensures[the-syncers-current-root] result1 == nil ==> result0 == exitRootAt[index]
+
+//@ func (b *bridgeDataQuerier) GetLastProcessedBlock
+//@   props C02 C03
+//@   requires b != nil && b.bridgeSyncer != nil
+//@   modifies nothing
+//@   ensures[the-syncers-current-block] result1 == nil ==> result0 == l2Synced
+
+//@ func (b *bridgeDataQuerier) GetBridgesAndClaims
+//@   props C03
+//@   requires b != nil && b.bridgeSyncer != nil
+//@   modifies nothing
+//@   ensures[error-means-nothing] result2 != nil ==> result0 == nil && result1 == nil
+//@   ensures[exactly-the-events-of-the-range] result2 == nil ==> off(result0) == 0 && off(result1) == 0 && len(result0) == nBridgesOf(fromBlock, toBlock) && len(result1) == nClaimsOf(fromBlock, toBlock) && seq(result0) == bridgesOf(fromBlock, toBlock) && seq(result1) == claimsOf(fromBlock, toBlock)
